@@ -268,11 +268,11 @@ func innermostRepoFunc(stack string) string {
 	lines := strings.Split(stack, "\n")
 	for _, l := range lines {
 		l = strings.TrimSpace(l)
-		if strings.HasPrefix(l, "github.com/relab/hotstuff/") && !strings.Contains(l, "zz_verifsim") {
+		if (strings.HasPrefix(l, "github.com/relab/hotstuff/") || strings.HasPrefix(l, "github.com/relab/hotstuff.")) && !strings.Contains(l, "zz_verifsim") {
 			if i := strings.LastIndex(l, "("); i > 0 {
 				l = l[:i]
 			}
-			return strings.TrimPrefix(l, "github.com/relab/hotstuff/")
+			return strings.TrimPrefix(strings.TrimPrefix(l, "github.com/relab/hotstuff/"), "github.com/relab/")
 		}
 	}
 	return "unknown"
